@@ -409,6 +409,42 @@ func init() {
 		}
 		return ex.ctx.And(parts...)
 	}
+	bytesCompare := func(ex *Exec, fn *ssa.Function, args []Value) Value {
+		a, b := args[0].(SliceV), args[1].(SliceV)
+		c := ex.ctx
+		n := len(a)
+		if len(b) < n {
+			n = len(b)
+		}
+		var res *Term
+		switch {
+		case len(a) < len(b):
+			res = c.Int(-1)
+		case len(a) > len(b):
+			res = c.Int(1)
+		default:
+			res = c.Int(0)
+		}
+		for i := n - 1; i >= 0; i-- {
+			x, y := a[i].(*Term), b[i].(*Term)
+			res = c.Ite(c.Lt(x, y), c.Int(-1), c.Ite(c.Lt(y, x), c.Int(1), res))
+		}
+		return res
+	}
+	models["bytes.Compare"] = bytesCompare
+	models["internal/bytealg.Compare"] = bytesCompare
+	bytesIndexByte := func(ex *Exec, fn *ssa.Function, args []Value) Value {
+		a := args[0].(SliceV)
+		ch := ex.asTerm(args[1], "IndexByte")
+		c := ex.ctx
+		res := c.Int(-1)
+		for i := len(a) - 1; i >= 0; i-- {
+			res = c.Ite(c.Eq(a[i].(*Term), ch), c.Int(int64(i)), res)
+		}
+		return res
+	}
+	models["bytes.IndexByte"] = bytesIndexByte
+	models["internal/bytealg.IndexByte"] = bytesIndexByte
 	str1 := func(f func(string) string) Model {
 		return func(ex *Exec, fn *ssa.Function, args []Value) Value {
 			s := args[0].(Str)
